@@ -286,12 +286,10 @@ def pyFloat (l : List Char) : Option (Nat × Int) :=
       | _ => match digitPart ip, digitPart f with
         | some a, some b => some (a ++ b, b.length)
         | _, _ => none
-  let ex : Option Int :=
+  let ex : Option Int :=     -- `(e|E) [+-] digitpart`: the sign and digits follow the syntax of `int()`
     match expo with
     | none => some 0
-    | some ('-' :: r) => (digitPart r).map fun ds => - (digitsVal ds : Int)
-    | some ('+' :: r) => (digitPart r).map fun ds => (digitsVal ds : Int)
-    | some r => (digitPart r).map fun ds => (digitsVal ds : Int)
+    | some r => pyInt r
   match mant, ex with
   | some (d, nf), some e => some (digitsVal d, e - nf)
   | _, _ => none
